@@ -1,9 +1,8 @@
 #!/bin/bash
-# re-run tools/seedcheck.sh for every kept seed against the current /repo and /verif; one line per seed
-# (the owning check is the one recorded in the seed's meta.json, by default the prefix of its name)
+# re-run tools/seedcheck.sh for every kept seed against the current /repo and /verif; one line per seed.
+# The owning check is the one recorded in the seed's meta.json (by default the prefix of its name).  Seeds owned by different
+# checks run in parallel (usage: tools/reverify_seeds.sh [jobs]); seeds of one check run one after the other (shared .work files).
 cd /verif
-for d in seeded/*/; do
-  n=$(basename $d); p=${n%%_*}
-  q=$(python3 -c "import json,sys; print(json.load(open('$d/meta.json')).get('property','$p'))" 2>/dev/null || echo $p)
-  tools/seedcheck.sh $d $q quick 2>&1 | head -1 | cut -c1-170
-done
+J=${1:-3}
+list=$(for d in seeded/*/; do n=$(basename $d); p=${n%%_*}; q=$(python3 -c "import json; print(json.load(open('$d/meta.json')).get('property','$p'))" 2>/dev/null || echo $p); echo "$q $n"; done | sort)
+echo "$list" | awk '{print $1}' | sort -u | xargs -P $J -I{} bash -c 'echo "$0" | grep "^{} " | while read q n; do tools/seedcheck.sh seeded/$n $q quick 2>&1 | grep "^seed=\|PATCH" | head -1 | cut -c1-170; done' "$list"
